@@ -212,12 +212,44 @@ def oracle_c06(fw, cfg, ops, res):
     glob = {"created": {}, "how": {}, "reg_req": {}, "dupreg": set(), "completed_at": {},
             "sid0": any(o[0] == "welcome" and o[1] == 0 for o in ops)}
     v = []
+    zombie = None
     for k in range(len(bounds) - 1):
         a, b = bounds[k], bounds[k + 1]
         if a == b: continue
-        for key, text in _oracle_life(fw, cfg, ops[a:b], trace[a:b], res, b == len(ops), glob, a):
+        vk = _oracle_life(fw, cfg, ops[a:b], trace[a:b], res, b == len(ops), glob, a)
+        if zombie is not None:
+            # an earlier life left a session id behind on the dead object (see _zombie_session_id): whatever goes wrong
+            # in this life is that one defect
+            if vk:
+                v.append((ZOMBIE_KEY, f"[life {k + 1} of the session object] the WELCOME of life {zombie[0] + 1} (op "
+                          f"{zombie[1]}) was still being processed (asyncio: one loop iteration later) when the transport "
+                          f"was lost; its continuation then set the session id on the dead object, nothing clears it, "
+                          f"the object does not join in its next life; first symptom: {vk[0][1]}"))
+            continue
+        for key, text in vk:
             v.append((key, text if k == 0 else f"[life {k + 1} of the session object] " + text))
+        w = _zombie_session_id(fw, cfg, ops[a:b], trace[a:b])
+        if w is not None:
+            zombie = (k, a + w)
     return v
+
+
+ZOMBIE_KEY = "asyncio-deferred-continuation/session-id-set-after-disconnect/next-life-cannot-join"
+# found in round 5 (lives), reported to the integrator, not triaged yet (see c04.split_untriaged)
+AWAITING_TRIAGE = {ZOMBIE_KEY: "welcome-then-loss-same-iteration-then-next-life"}
+
+
+def _zombie_session_id(fw, cfg, ops, trace):
+    """asyncio: index of a WELCOME that was accepted (onWelcome ran) but whose continuation -- the one that sets the
+    session id, one loop iteration later -- had not run yet when the transport was lost"""
+    if fw != "aio" or cfg["welcome"] != "none":
+        return None
+    w = None
+    for i, (o, evs) in enumerate(zip(ops, trace)):
+        if o[0] == "welcome" and any(e[0] == "called" and e[1][0] == "welcome" for e in evs): w = i
+        elif o[0] == "turn": w = None
+        elif o[0] == "lost" and w is not None: return w
+    return None
 
 
 def _attached_before(ops, i):
@@ -395,7 +427,7 @@ def res_sid_truthy(ops):
 
 
 # ------------------------------------------------------------------------------------------------------------------
-def systematic_cases(fw, cfgs=None, spacings=(0, 1, 3)):
+def systematic_cases(fw, cfgs=None, spacings=(0, 1, 3), trim=False):
     """exhaustive family: every single-fault variation (11 faults at every position) of 6 canonical conversations, under
     each configuration in `cfgs` (default: all 10); asyncio: with the given numbers of loop iterations between ops"""
     base = dict(c04.DEFAULT_CFG)
@@ -424,18 +456,22 @@ def systematic_cases(fw, cfgs=None, spacings=(0, 1, 3)):
                 dict(base, disc_raises=True), dict(base, lenient=True), dict(base, challenge="none")]
     out = []
     for conv in convs:
+        # trim (quick tier): in the two-life conversations the faults go into the second life only (the first life is
+        # one of the single-life conversations above), asyncio with the widest spacing only
+        second = next((i for i, o in enumerate(conv) if o[0] == "open" and i > 0), None)
+        first_p = second + 1 if (trim and second is not None) else 1
         for cfg in (all_cfgs if cfgs is None else [all_cfgs[i] for i in cfgs]):
-            variants = [conv] + [conv[:p] + [f] + conv[p:] for p in range(1, len(conv) + 1) for f in faults]
+            variants = [conv] + [conv[:p] + [f] + conv[p:] for p in range(first_p, len(conv) + 1) for f in faults]
             for ops in variants:
                 if fw == "aio":
-                    for spacing in spacings:
+                    for spacing in (spacings[-1:] if (trim and second is not None) else spacings):
                         out.append({"cfg": cfg, "ops": aio_schedule(ops, lambda o, k=spacing: k)})
                 else:
                     out.append({"cfg": cfg, "ops": ops})
     return out
 
 
-def api_after_end_cases(fw):
+def api_after_end_cases(fw, trim=False):
     """every API call x every way the session can end, on a rich local state: two handlers on subscription 77, one on 78,
     two registrations, one pending request of each of call / publish / subscribe / register"""
     base = dict(c04.DEFAULT_CFG)
@@ -452,7 +488,8 @@ def api_after_end_cases(fw):
             ["unregister", 3], ["unregister", 4], ["cancel", 5], ["leave", None], ["disconnect"]]
     out = []
     for cfg in (base, dict(base, lenient=True)):
-        for end in ends:
+        # trim (quick tier): the transport that accepts send() after close() differs only for the endings without loss
+        for end in (ends[3:] if (trim and cfg["lenient"]) else ends):
             for api in apis:
                 ops = build + end + [api, ["unsubscribe", 1], ["call", 1, [], [], None]]
                 out.append({"cfg": cfg, "ops": aio_schedule(ops, lambda o: 2) if fw == "aio" else ops})
@@ -504,10 +541,11 @@ def run(ck):
             # iterations between ops), a sample of it under the nine other configurations
             r2 = ck.rng(f"sys/{fw}")
             rest = systematic_cases(fw, cfgs=range(1, 10))
-            sysc = systematic_cases(fw, cfgs=[0], spacings=(0, 3)) + r2.sample(rest, min(len(rest), 250))
+            sysc = systematic_cases(fw, cfgs=[0], spacings=(0, 3), trim=True) + r2.sample(rest, min(len(rest), 200))
+            sysc += api_after_end_cases(fw, trim=True)
         else:
-            sysc = systematic_cases(fw)
-        sysc += api_after_end_cases(fw)
+            sysc = (systematic_cases(fw, cfgs=[0]) + systematic_cases(fw, cfgs=range(1, 10), trim=True)
+                    + api_after_end_cases(fw))
         cases += sysc
         cases += [gen_c06_case(rng, fw) for _ in range(n_hist)]
         per = (len(cases) + shards - 1) // shards
@@ -527,6 +565,7 @@ def run(ck):
             ck.bump("oracle:" + key)
             if key not in found or len(it[2]) < len(found[key][1][2]):
                 found[key] = (text, it)
+    c04.split_untriaged(ck, found, AWAITING_TRIAGE)
     c04.report_findings(ck, found, oracle_c06, lambda fw: 1)
     bad = c04.model_compare(ck, "c06", items)
     ck.bump("model_compared", len(items))
